@@ -853,6 +853,16 @@ def clip(a, a_min=None, a_max=None, out=None, **kw):
     return r
 
 
+def _dot(a, b, out=None):
+    """np.dot with a scalar factor is an element-wise product (the only form the repo uses on lazy arrays)"""
+    if isinstance(b, (Sym, builtins.int, builtins.float, np.integer, np.floating)) or (isinstance(b, np.ndarray) and b.ndim == 0):
+        return a * (b[()] if isinstance(b, np.ndarray) else b)
+    if isinstance(a, (Sym, builtins.int, builtins.float, np.integer, np.floating)):
+        return b * a
+    raise Unsupported("np.dot of lazy arrays with a matrix")
+
+
+FUNCTIONS[np.dot] = _dot
 FUNCTIONS[np.clip] = clip
 FUNCTIONS[np.tile] = tile
 FUNCTIONS[np.reshape] = reshape
